@@ -20,6 +20,8 @@ pub mod service_index;
 
 #[cfg(feature = "debug")]
 pub mod naming_debug;
+#[cfg(feature = "verif_hooks")]
+pub mod verif_hooks;
 pub mod sniffing;
 
 pub struct NamingUtils;
